@@ -162,3 +162,65 @@ func invitesBody(c *nd.Ctx) nd.Result {
 	}
 	return res
 }
+
+// joinErrorBody: the room refuses the join with an error presence that carries
+// the request's id and whose from names the requested occupant in an
+// equivalent spelling (another case of the domain or of the room's localpart),
+// or the room itself: the Join ends with that stanza error, it does not wait
+// for its context.
+func joinErrorBody(c *nd.Ctx) nd.Result {
+	from := []string{"room@conf.example.net/me", "room@CONF.EXAMPLE.NET/me", "Room@conf.example.net/me", "room@conf.example.net"}[c.Choose(4, "error-from")]
+	ns := stanza.NSClient
+	var env *vsess.Env
+	var setupErr, joinErr error
+	out := vs.Run(c, vs.Options{Horizon: 60000, Canonical: quickTier}, func() {
+		env, setupErr = vsess.New(ns, 0)
+		if setupErr != nil {
+			return
+		}
+		client := &muc.Client{}
+		var seen strings.Builder
+		answered := map[string]bool{}
+		env.Lib.OnWrite = func(p []byte) {
+			seen.Write(p)
+			for _, el := range vsess.TopLevel(ns, seen.String()) {
+				id := el.Attr("id")
+				if el.Start.Name.Local != "presence" || answered[id] || el.Attr("type") != "" {
+					continue
+				}
+				answered[id] = true
+				env.PeerWrite(fmt.Sprintf(`<presence from='%s' to='me@example.net/res' type='error' id='%s'><x xmlns='http://jabber.org/protocol/muc'/><error type='auth'><forbidden xmlns='urn:ietf:params:xml:ns:xmpp-stanzas'/></error></presence>`, from, id))
+			}
+		}
+		env.Serve(mux.New(ns, muc.HandleClient(client)))
+		_, joinErr = client.Join(context.Background(), room, env.S)
+		env.PeerWrite(`</stream:stream>`)
+		vsess.Wait("serve-done", func() bool { return env.ServeDone })
+	})
+	if setupErr != nil {
+		panic(setupErr)
+	}
+	desc := fmt.Sprintf("join of %s refused by an error presence from %s", room, from)
+	c.Note("%s outcome=%s", desc, out.Kind)
+	for _, t := range out.Trace {
+		c.Note("  %s", t)
+	}
+	res := nd.Result{Outcome: out.Kind, NonTrivial: desc + fmt.Sprint(c.Vector())}
+	fail := func(sig, f string, a ...any) nd.Result {
+		res.Violation = &nd.Violation{Sig: "join-error:" + sig, Msg: desc + fmt.Sprintf(" [join %v]: ", joinErr) + fmt.Sprintf(f, a...)}
+		return res
+	}
+	switch out.Kind {
+	case "panic":
+		return fail(out.Panic.Sig(), "panic in thread %s: %s\n%s", out.PanicIn, out.Panic.Value, out.Panic.Stack)
+	case "deadlock":
+		return fail("join-never-returns-although-the-room-refused", "blocked threads: %v", out.Blocked)
+	case "horizon":
+		return fail("does-not-terminate", "blocked: %v", out.Blocked)
+	}
+	var se stanza.Error
+	if !errors.As(joinErr, &se) || se.Condition != stanza.Forbidden {
+		return fail("join-result", "the room refused the join with <forbidden/>, Join returned %v", joinErr)
+	}
+	return res
+}
